@@ -531,9 +531,10 @@ Proof. exact loop_silent_while_running. Qed.
 Print Assumptions C07_loop_silent_while_running.
 
 (* Idle expiry / "a local protocol having shut down": the command stream ends exactly when the last strong
-   sender is gone — a connection that still runs is held by some protocol. *)
+   sender is gone — a connection that still runs is held by some protocol, or by the permit of a substream
+   negotiation that is still pending. *)
 Theorem C07_loop_running_is_held :
-  forall al fb ops, let s := fst (whole_run al fb ops) in running s = true -> any_held (l_handle s) = true.
+  forall al fb ops, let s := fst (whole_run al fb ops) in running s = true -> any_strong (l_handle s) (l_pend s) = true.
 Proof. exact loop_running_is_held. Qed.
 Print Assumptions C07_loop_running_is_held.
 
